@@ -95,6 +95,9 @@ type RefClient struct {
 	// LostInStray maps a rid to the rid of the stray event whose (ignored)
 	// frame carried its data.
 	LostInStray    map[string]string
+	// LostAfterGet: the stray event that carried the rid was one flushed after
+	// a get response (finding K)
+	LostAfterGet map[string]bool
 	Unsubs         []UnsubCheck
 	Debug          bool
 	Redundant      int // resources re-sent although already held
@@ -119,7 +122,7 @@ func NewRefClient(conn, ver int) *RefClient {
 		Cache: map[string]*RCRes{}, Direct: map[string]int{}, Extra: map[string]int{}, EverTentative: map[string]bool{},
 		pool: map[string]*RCRes{}, sent: map[uint64]*SentReq{}, Responses: map[uint64]int{},
 		RespFrame: map[uint64]*Frame{},
-		Delivered: map[string][]DelivEv{}, HandT: map[string]int64{}, DropT: map[string]int64{}, Held: map[string][]HeldInterval{}, DropGroup: map[string][]string{}, LostInStray: map[string]string{},
+		Delivered: map[string][]DelivEv{}, HandT: map[string]int64{}, DropT: map[string]int64{}, Held: map[string][]HeldInterval{}, DropGroup: map[string][]string{}, LostInStray: map[string]string{}, LostAfterGet: map[string]bool{},
 	}
 }
 
@@ -201,6 +204,7 @@ func (rc *RefClient) ingest(rs *resourceSet, t int64) (rids []string) {
 		}
 		res.FromT = t
 		delete(rc.LostInStray, rid)
+		delete(rc.LostAfterGet, rid)
 		rc.Cache[rid] = res
 		rc.HandT[rid] = t
 		rc.openInterval(rid, t, res)
@@ -598,6 +602,9 @@ func (rc *RefClient) processEvent(f *Frame) {
 				for r := range m {
 					if _, held := rc.Cache[r]; !held {
 						rc.LostInStray[r] = rid
+						if sig == "strayEvent.afterGet" || rc.LostAfterGet[rid] {
+							rc.LostAfterGet[r] = true
+						}
 					}
 				}
 			}
